@@ -407,7 +407,9 @@ func c14ExecRun(t *rapid.T) {
 		case *simrt.Deadlock:
 			violate(t, "C14", "no-deadlock", "deadlock:"+scName, details(err.Error()))
 		case *simrt.StepLimit:
-			violate(t, "C14", "terminates-within-step-budget", "steplimit:"+scName, details(err.Error()))
+			// a long but finite run cannot be told from a livelock by a step count:
+			// inconclusive, counted, never a violation (blocking is covered by deadlock detection)
+			count("c14_step_limit_inconclusive", 1)
 		default:
 			violate(t, "C14", "no-panic", "panic:"+scName, details(err.Error()))
 		}
